@@ -33,7 +33,7 @@ type Shared struct {
 	guards    []guardSpec
 
 	mu       sync.Mutex
-	queue    [][]Decision
+	queue    []queued
 	active   int
 	cond     *sync.Cond
 	res      *Result
@@ -115,6 +115,7 @@ type Result struct {
 	FeasQueries   int                    `json:"feasibility_queries"`
 	AssertQueries int                    `json:"assert_queries"`
 	SolverSat     int                    `json:"solver_sat"`
+	ByTag         map[string]float64     `json:"queries_by_site,omitempty"`
 	SolverUnsat   int                    `json:"solver_unsat"`
 	SolverUnknown int                    `json:"solver_unknown"`
 	SolverWallS   float64                `json:"solver_wall_s"`
@@ -171,6 +172,10 @@ type Ctx struct {
 	// model is an assignment of the input variables known to satisfy the current path condition (when modelValid)
 	model      map[string]uint64
 	modelValid bool
+	ord        *ord
+	pcSet      map[*Term]bool
+	auxVars    []*Term
+	ordHits    int
 	modelHits  int
 	extra         map[string]any
 }
@@ -189,9 +194,19 @@ func (c *Ctx) assume(t *Term) {
 	if t.IsTrue() {
 		return
 	}
+	if c.pcSet == nil {
+		c.pcSet = map[*Term]bool{}
+	}
+	if c.pcSet[t] {
+		return
+	}
+	c.pcSet[t] = true
 	c.pc = append(c.pc, t)
 	if c.solver != nil {
 		c.solver.Assert(t)
+		if c.ord != nil {
+			c.ord.fact(t)
+		}
 	}
 	if c.modelValid && !c.modelSat(t) {
 		c.modelValid = false
@@ -206,6 +221,23 @@ func (c *Ctx) modelSat(t *Term) bool {
 	return t.Eval(c.model, map[*Term]uint64{}) == 1
 }
 
+// peekModel returns the solver's current model without installing it (between a Sat Check and EndCheck).
+func (c *Ctx) peekModel() map[string]uint64 {
+	saved, savedValid := c.model, c.modelValid
+	c.fetchModel()
+	m := c.model
+	c.model, c.modelValid = saved, savedValid
+	return m
+}
+
+func copyModel(m map[string]uint64) map[string]uint64 {
+	out := make(map[string]uint64, len(m))
+	for k, v := range m {
+		out[k] = v
+	}
+	return out
+}
+
 // fetchModel stores the solver's current model (call between a Sat Check and EndCheck).
 func (c *Ctx) fetchModel() {
 	var vars []*Term
@@ -214,6 +246,7 @@ func (c *Ctx) fetchModel() {
 			vars = append(vars, in)
 		}
 	}
+	vars = append(vars, c.auxVars...)
 	c.model = c.solver.GetValues(vars)
 	c.modelValid = true
 }
@@ -234,7 +267,16 @@ func (c *Ctx) assumeChecked(cond *Term, what string) {
 		c.assume(cond)
 		return
 	}
+	if c.pos < len(c.prefix) {
+		// replaying: the decision still ahead was found satisfiable together with this assumption
+		c.assume(cond)
+		return
+	}
+	c.solver.tag = "assume"
 	r := c.solver.Check(cond, false)
+	if unsatLog != nil {
+		fmt.Fprintf(unsatLog, "A%d %s :: %s\n", r, what, cond.Deep(5))
+	}
 	if r == Sat {
 		c.fetchModel()
 	}
@@ -249,6 +291,18 @@ func (c *Ctx) assumeChecked(cond *Term, what string) {
 	}
 }
 
+var noOrd = os.Getenv("GOSMT_NOORD") != ""
+
+var oracleCheck = os.Getenv("GOSMT_ORACLE_CHECK") != ""
+
+var unsatLog = func() *os.File {
+	if p := os.Getenv("GOSMT_UNSATLOG"); p != "" {
+		f, _ := os.Create(p)
+		return f
+	}
+	return nil
+}()
+
 func (c *Ctx) branch(cond *Term) bool {
 	if cond.IsTrue() {
 		return true
@@ -259,13 +313,20 @@ func (c *Ctx) branch(cond *Term) bool {
 	return c.choose([]*Term{cond, c.tb.Not(cond)}) == 0
 }
 
-func (c *Ctx) enqueue(d Decision) {
+// queued is an unexplored alternative: the decision prefix that reaches it and, when the solver produced one,
+// an assignment satisfying the whole prefix (so that replaying the prefix needs no solver call).
+type queued struct {
+	prefix []Decision
+	model  map[string]uint64
+}
+
+func (c *Ctx) enqueue(d Decision, model map[string]uint64) {
 	np := make([]Decision, len(c.trace)+1)
 	copy(np, c.trace)
 	np[len(c.trace)] = d
 	s := c.shared
 	s.mu.Lock()
-	s.queue = append(s.queue, np)
+	s.queue = append(s.queue, queued{np, model})
 	s.cond.Signal()
 	s.mu.Unlock()
 }
@@ -297,6 +358,7 @@ func (c *Ctx) choose(alts []*Term) int {
 		}
 	}
 	var chosenModel map[string]uint64
+	var altModels map[int]map[string]uint64
 	for i, a := range alts {
 		if a.IsFalse() {
 			continue
@@ -310,15 +372,44 @@ func (c *Ctx) choose(alts []*Term) int {
 			feas = append(feas, i) // exhaustive alternatives and a satisfiable path condition
 			break
 		}
+		if c.ord != nil && c.ord.refutes(a) {
+			c.ordHits++
+			if oracleCheck {
+				if r := c.solver.Check(a, false); r == Sat {
+					c.solver.EndCheck()
+					panic(fmt.Sprintf("internal: order refuter wrong about %s (solver: %v)", a.Deep(8), r))
+				}
+				c.solver.EndCheck()
+			}
+			continue
+		}
+		c.solver.tag = "choose"
 		r := c.solver.Check(a, false)
-		if r == Sat && len(feas) == 0 {
-			// this alternative will be taken: keep its model
+		if r == Sat {
+			// keep its model: for the alternative taken now, or for the replay of the queued one
 			saved, savedValid := c.model, c.modelValid
 			c.fetchModel()
-			chosenModel = c.model
+			if len(feas) == 0 {
+				chosenModel = c.model
+			} else {
+				if altModels == nil {
+					altModels = map[int]map[string]uint64{}
+				}
+				altModels[i] = c.model
+			}
 			c.model, c.modelValid = saved, savedValid
 		}
 		c.solver.EndCheck()
+		if r == Unsat && unsatLog != nil {
+			fmt.Fprintf(unsatLog, "U %s\n", a.Deep(6))
+			if os.Getenv("GOSMT_UNSATPC") != "" {
+				for _, p := range c.pc {
+					fmt.Fprintf(unsatLog, "    pc %s\n", p.Deep(5))
+				}
+			}
+		} else if unsatLog != nil {
+			fmt.Fprintf(unsatLog, "S %s\n", a.Deep(6))
+		}
 		if r != Unsat {
 			feas = append(feas, i)
 		}
@@ -327,7 +418,11 @@ func (c *Ctx) choose(alts []*Term) int {
 		panic(pathEnd{"infeasible", "no feasible alternative"})
 	}
 	for _, i := range feas[1:] {
-		c.enqueue(Decision{N: i})
+		m := altModels[i]
+		if i == known {
+			m = copyModel(c.model)
+		}
+		c.enqueue(Decision{N: i}, m)
 	}
 	d := Decision{N: feas[0]}
 	c.trace = append(c.trace, d)
@@ -354,7 +449,11 @@ func (c *Ctx) chooseAll(n int) int {
 		return d.N
 	}
 	for i := 1; i < n; i++ {
-		c.enqueue(Decision{N: i})
+		var m map[string]uint64
+		if c.modelValid {
+			m = copyModel(c.model)
+		}
+		c.enqueue(Decision{N: i}, m)
 	}
 	c.trace = append(c.trace, Decision{N: 0})
 	c.pos++
@@ -387,10 +486,15 @@ func (c *Ctx) concretize(t *Term, what string) uint64 {
 			v := t.Eval(c.model, map[*Term]uint64{})
 			vt := c.tb.Const(v, t.sort.bits)
 			ne := c.tb.Not(c.tb.Eq(t, vt))
+			c.solver.tag = "conc-ne-model"
 			r2 := c.solver.Check(ne, false)
+			var m2 map[string]uint64
+			if r2 == Sat {
+				m2 = c.peekModel()
+			}
 			c.solver.EndCheck()
 			if r2 != Unsat {
-				c.enqueue(Decision{N: 1, Val: v, K: 1})
+				c.enqueue(Decision{N: 1, Val: v, K: 1}, m2)
 			}
 			c.trace = append(c.trace, Decision{N: 0, Val: v, K: 1})
 			c.pos++
@@ -398,6 +502,7 @@ func (c *Ctx) concretize(t *Term, what string) uint64 {
 			return v
 		}
 		c.solver.Predefine(t)
+		c.solver.tag = "conc-nil"
 		r := c.solver.Check(nil, false)
 		if r != Sat {
 			c.solver.EndCheck()
@@ -416,10 +521,15 @@ func (c *Ctx) concretize(t *Term, what string) uint64 {
 		}
 		vt := c.tb.Const(v, t.sort.bits)
 		ne := c.tb.Not(c.tb.Eq(t, vt))
+		c.solver.tag = "conc-ne"
 		r2 := c.solver.Check(ne, false)
+		var m2 map[string]uint64
+		if r2 == Sat {
+			m2 = c.peekModel()
+		}
 		c.solver.EndCheck()
 		if r2 != Unsat {
-			c.enqueue(Decision{N: 1, Val: v, K: 1})
+			c.enqueue(Decision{N: 1, Val: v, K: 1}, m2)
 		}
 		c.trace = append(c.trace, Decision{N: 0, Val: v, K: 1})
 		c.pos++
@@ -653,7 +763,7 @@ func (s *Shared) worker(id int) {
 		s.active++
 		s.mu.Unlock()
 
-		s.runPath(tb, solver, p)
+		s.runPath(tb, solver, p.prefix, p.model)
 
 		s.mu.Lock()
 		s.active--
@@ -677,6 +787,13 @@ func (s *Shared) worker(id int) {
 		s.res.FeasQueries += solver.nFeas
 		s.res.AssertQueries += solver.nAssert
 		s.res.SolverSat += solver.nSat
+		if s.res.ByTag == nil {
+			s.res.ByTag = map[string]float64{}
+		}
+		for k, v := range solver.byTag {
+			s.res.ByTag[k] += float64(v)
+			s.res.ByTag[k+"/s"] += solver.byTagT[k].Seconds()
+		}
 		s.res.SolverUnsat += solver.nUnsat
 		s.res.SolverUnknown += solver.nUnk
 		s.res.SolverWallS += solver.wall.Seconds()
@@ -689,7 +806,7 @@ func (s *Shared) worker(id int) {
 	}
 }
 
-func (s *Shared) runPath(tb *TermTable, solver *Solver, prefix []Decision) {
+func (s *Shared) runPath(tb *TermTable, solver *Solver, prefix []Decision, model map[string]uint64) {
 	c := &Ctx{shared: s, tb: tb, solver: solver, prefix: prefix,
 		instrBudget: s.opts.InstrBudget, unwind: s.opts.Unwind, maxAlloc: s.opts.MaxAlloc,
 		globals: map[*ssa.Global]*Object{}, locks: map[string]*lockState{}, nested: map[string]*Object{},
@@ -700,6 +817,12 @@ func (s *Shared) runPath(tb *TermTable, solver *Solver, prefix []Decision) {
 	if solver != nil {
 		solver.NewPath()
 		c.model, c.modelValid = map[string]uint64{}, true // the empty path condition is satisfied by any assignment
+		if model != nil {
+			c.model = model // satisfies every assumption and decision of the prefix
+		}
+		if !noOrd {
+			c.ord = newOrd(tb)
+		}
 	}
 	status, msg := "end", ""
 	var gp *goPanicSig
@@ -821,7 +944,7 @@ func (c *Ctx) pathModel(vec []uint64, status, msg string) *PathModel {
 func explore(s *Shared) *Result {
 	start := time.Now()
 	s.cond = sync.NewCond(&s.mu)
-	s.queue = [][]Decision{{}}
+	s.queue = []queued{{}}
 	if s.opts.WallLimit > 0 {
 		s.deadline = start.Add(s.opts.WallLimit)
 	}
